@@ -3,7 +3,6 @@ import MythVerif.Proofs.WsQueueTsoTac
 namespace MythVerif.WsqTso
 open MythVerif.Wsq
 
-set_option maxHeartbeats 4000000 in
 theorem f_T_ptr4_idle (s : St) (p : Pid) (e0 : Elem) (ok : Bool) : Inv s → s.opc = .idle → s.lock = .thief p →
     s.bufT p = [.ptr (s.lb - 1) (some e0), .baseI (s.lb - 1) e0] → s.tpc p = .tp4 ok →
     Inv (applySto { s with bufT := upd s.bufT p [.baseI (s.lb - 1) e0] } (.ptr (s.lb - 1) (some e0))) := by
@@ -11,7 +10,6 @@ theorem f_T_ptr4_idle (s : St) (p : Pid) (e0 : Elem) (ok : Bool) : Inv s → s.o
   simp only [applySto]
   tso_fastO h hopc [tp3, tp4, carryC]
 
-set_option maxHeartbeats 4000000 in
 theorem f_T_ptr4_pu0 (s : St) (p : Pid) (e0 : Elem) (ok : Bool) (e) : Inv s → s.opc = .pu0 e → s.lock = .thief p →
     s.bufT p = [.ptr (s.lb - 1) (some e0), .baseI (s.lb - 1) e0] → s.tpc p = .tp4 ok →
     Inv (applySto { s with bufT := upd s.bufT p [.baseI (s.lb - 1) e0] } (.ptr (s.lb - 1) (some e0))) := by
@@ -19,7 +17,6 @@ theorem f_T_ptr4_pu0 (s : St) (p : Pid) (e0 : Elem) (ok : Bool) (e) : Inv s → 
   simp only [applySto]
   tso_fastO h hopc [tp3, tp4, carryC]
 
-set_option maxHeartbeats 4000000 in
 theorem f_T_ptr4_pu0f (s : St) (p : Pid) (e0 : Elem) (ok : Bool) (e t) : Inv s → s.opc = .pu0f e t → s.lock = .thief p →
     s.bufT p = [.ptr (s.lb - 1) (some e0), .baseI (s.lb - 1) e0] → s.tpc p = .tp4 ok →
     Inv (applySto { s with bufT := upd s.bufT p [.baseI (s.lb - 1) e0] } (.ptr (s.lb - 1) (some e0))) := by
